@@ -17,7 +17,7 @@ def run(ctx):
     impl = ctx.build('asan')
     tbls = bc.tables(impl)
     cases = []
-    n = 25 if ctx.tier == 'quick' else 400
+    n = 40 if ctx.tier == 'quick' else 400
     for name in bc.DIALECT_NAMES:
         for k in range(n):
             lines, tbl, be = bc.gen_for(r, tbls, name)
